@@ -351,7 +351,7 @@ def corpus_for(seed, n_random):
 
 def plan(tier, seed, scale):
     K = 16
-    n = int((1600 if tier == "quick" else 5000) * scale)
+    n = int((1600 if tier == "quick" else 12000) * scale)
     base = pristine()
     tasks = [{"name": "machine-%d" % i, "kind": "machine", "n": max(n // K, 2), "shard": i,
               "steps": 30 if tier == "quick" else 80, "pristine": base} for i in range(K)]
